@@ -47,35 +47,38 @@ def termItem (t : Term) (σ : BState) (unconsumed : Bytes) : Item :=
 
 /-! ## async -/
 
-/-- the loop of `AsyncConnection::receive`: returns the item, the new `recv_buf`, the rest of the script -/
-def recvLoopA (σ : BState) (buf : Bytes) : List Bytes → Term → Item × Bytes × List Bytes
+/-- the loop of `AsyncConnection::receive`: returns the item, the new `recv_buf`, the rest of the
+script, and the builder state the call leaves behind (after fix F12 the next call resumes from it:
+`ResponseBuilder::drop` hands the state to the connection, `ResponseBuilder::new` takes it back) -/
+def recvLoopA (σ : BState) (buf : Bytes) : List Bytes → Term → Item × Bytes × List Bytes × BState
   | chunks, term =>
     match feed σ buf with
-    | (_, rest, .done r) => (.resp r, rest, chunks)
-    | (_, rest, .invalid) => (.invalid, rest, chunks)
-    | (_, rest, .panic) => (.panic, rest, chunks)
+    | (σ', rest, .done r) => (.resp r, rest, chunks, σ')
+    | (σ', rest, .invalid) => (.invalid, rest, chunks, σ')
+    | (σ', rest, .panic) => (.panic, rest, chunks, σ')
     | (σ', rest, .pending) =>
       match chunks with
-      | [] => (termItem term σ' rest, rest, [])
+      | [] => (termItem term σ' rest, rest, [], σ')
       | c :: cs =>
-        if c.isEmpty then (eofItem σ' rest, rest, cs)       -- a 0-byte read is EOF to the code
+        if c.isEmpty then (eofItem σ' rest, rest, cs, σ')       -- a 0-byte read is EOF to the code
         else recvLoopA σ' (rest ++ c) cs term
 
-/-- one `receive()` call on an async connection -/
-def recvA (buf : Bytes) (chunks : List Bytes) (term : Term) : Item × Bytes × List Bytes :=
-  recvLoopA .initial buf chunks term
+/-- one `receive()` call on an async connection whose previous call left the builder state `σ` -/
+def recvA (σ : BState) (buf : Bytes) (chunks : List Bytes) (term : Term) : Item × Bytes × List Bytes × BState :=
+  recvLoopA σ buf chunks term
 
 /-- a session: call `receive` until it yields something else than a response, then `extra` more
-calls (whose results are recorded too: they must not panic). `fuel` bounds the number of responses. -/
-def sessionA : Nat → Nat → Bytes → List Bytes → Term → List Item
-  | 0, _, _, _, _ => []
-  | fuel + 1, extra, buf, chunks, term =>
-    match recvA buf chunks term with
-    | (.resp r, buf', cs') => .resp r :: sessionA fuel extra buf' cs' term
-    | (it, buf', cs') =>
+calls (whose results are recorded too: they must not panic). `fuel` bounds the number of responses.
+`σ` is the builder state kept by the connection between calls (`.initial` on a new connection). -/
+def sessionA : Nat → Nat → BState → Bytes → List Bytes → Term → List Item
+  | 0, _, _, _, _, _ => []
+  | fuel + 1, extra, σ, buf, chunks, term =>
+    match recvA σ buf chunks term with
+    | (.resp r, buf', cs', σ') => .resp r :: sessionA fuel extra σ' buf' cs' term
+    | (it, buf', cs', σ') =>
       match extra with
       | 0 => [it]
-      | e + 1 => it :: sessionA fuel e buf' cs' term
+      | e + 1 => it :: sessionA fuel e σ' buf' cs' term
 
 /-- whole-stream reference decoding: the session when the entire stream is available at once
 (no segmentation at all). C02 states that every segmentation, of either flavour, yields this. -/
@@ -113,36 +116,36 @@ def afterRead (b : SBuf) (unconsumed got : Bytes) : SBuf :=
   { cap := if data.length = b.cap then b.cap * 2 else b.cap, data := data }
 
 /-- the loop of `Connection::receive`. `fuel` bounds the number of reads. -/
-def recvLoopS : Nat → BState → SBuf → List Bytes → Term → Item × SBuf × List Bytes
-  | 0, _, b, chunks, _ => (.panic, b, chunks)     -- out of fuel: never happens with enough fuel
+def recvLoopS : Nat → BState → SBuf → List Bytes → Term → Item × SBuf × List Bytes × BState
+  | 0, σ, b, chunks, _ => (.panic, b, chunks, σ)     -- out of fuel: never happens with enough fuel
   | fuel + 1, σ, b, chunks, term =>
     -- `split_off(total_received)` panics if total_received > len
-    if b.cap < b.data.length then (.panic, b, chunks) else
+    if b.cap < b.data.length then (.panic, b, chunks, σ) else
     match feed σ b.data with
-    | (_, rest, .done r) => (.resp r, { b with data := rest }, chunks)
-    | (_, rest, .invalid) => (.invalid, { b with data := rest }, chunks)
-    | (_, rest, .panic) => (.panic, { b with data := rest }, chunks)
+    | (σ', rest, .done r) => (.resp r, { b with data := rest }, chunks, σ')
+    | (σ', rest, .invalid) => (.invalid, { b with data := rest }, chunks, σ')
+    | (σ', rest, .panic) => (.panic, { b with data := rest }, chunks, σ')
     | (σ', rest, .pending) =>
       match readChunk (b.cap - rest.length) chunks with
-      | none => (termItem term σ' rest, { b with data := rest }, [])
+      | none => (termItem term σ' rest, { b with data := rest }, [], σ')
       | some (got, cs) =>
-        if got.isEmpty then (eofItem σ' rest, { b with data := rest }, cs)
+        if got.isEmpty then (eofItem σ' rest, { b with data := rest }, cs, σ')
         else recvLoopS fuel σ' (afterRead b rest got) cs term
 
 def scriptLen (chunks : List Bytes) : Nat := chunks.flatten.length + chunks.length
 
-def recvS (b : SBuf) (chunks : List Bytes) (term : Term) : Item × SBuf × List Bytes :=
-  recvLoopS (scriptLen chunks + 1) .initial b chunks term
+def recvS (σ : BState) (b : SBuf) (chunks : List Bytes) (term : Term) : Item × SBuf × List Bytes × BState :=
+  recvLoopS (scriptLen chunks + 1) σ b chunks term
 
-def sessionS : Nat → Nat → SBuf → List Bytes → Term → List Item
-  | 0, _, _, _, _ => []
-  | fuel + 1, extra, b, chunks, term =>
-    match recvS b chunks term with
-    | (.resp r, b', cs') => .resp r :: sessionS fuel extra b' cs' term
-    | (it, b', cs') =>
+def sessionS : Nat → Nat → BState → SBuf → List Bytes → Term → List Item
+  | 0, _, _, _, _, _ => []
+  | fuel + 1, extra, σ, b, chunks, term =>
+    match recvS σ b chunks term with
+    | (.resp r, b', cs', σ') => .resp r :: sessionS fuel extra σ' b' cs' term
+    | (it, b', cs', σ') =>
       match extra with
       | 0 => [it]
-      | e + 1 => it :: sessionS fuel e b' cs' term
+      | e + 1 => it :: sessionS fuel e σ' b' cs' term
 
 /-! ## connect -/
 
